@@ -438,6 +438,8 @@ func runC01(c *Ctx) {
 	// R12: the count equals the bytes moved — not when the chunk offsets wrapped (shared with C12.R10)
 	c.withRule("R12", func() { checkChunkOffsetsCannotWrap(c, "R10") })
 	checkAppendStartsAtEnd(c, "R13")
+	// R14: what is read is what the file contains — a short chunk ends the copy (shared with C13.R13)
+	c.withRule("R14", func() { checkShortChunkEndsTransfer(c, "R13") })
 }
 
 // checkPoolDiscipline: chunks travel between the goroutines of a transfer in pooled buffers.  pool.Put(b) makes b
